@@ -322,9 +322,12 @@ def restore (hdr : Header) (rid : String) (c : Chunk) : Chunk :=
 def boundaries (cs : List Chunk) : List Int :=
   cs.map (·.start) ++ (match cs.getLast? with | some c => [c.stop] | none => [])
 
-/-- `t` lies strictly inside a row-free gap of `rows`: no row has `time ≤ t ≤ endt` -/
+/-- `t` lies in a stretch covered by no row of `rows`: no row `[time, endt)` has `time ≤ t < endt`
+(in particular none straddles `t`).  This is the property's wording ("fall in row-free gaps"); a cut
+at the very instant a row ends is allowed.  C07's `rechunk_stream` proves the stronger closed form
+(`¬ (time ≤ t ≤ endt)`: today's rechunker cuts 500 ns inside a gap of more than 1000 ns). -/
 def inGap (rows : List Row) (t : Int) : Bool :=
-  rows.all fun r => !(decide (r.time ≤ t) && decide (t ≤ r.endt))
+  rows.all fun r => !(decide (r.time ≤ t) && decide (t < r.endt))
 
 /-- the C03 boundary rule: every boundary of `new` is a boundary of `old` or lies in a row-free gap -/
 def boundaryRuleB (old new : List Chunk) : Bool :=
